@@ -1,6 +1,7 @@
 /- Driver handlers for the formatted output / input ops (property C18); C side: harness/ops_printf.c. -/
 import Mpir.Proto
 import Mpir.Model.Printf
+import Mpir.Model.Scanf
 namespace Mpir.Ops.Printf
 open Mpir Mpir.Printf
 
@@ -168,6 +169,83 @@ def oneConv (ty : Char) (size : Nat) (fmtB : List UInt8) (rest : List Tok) : Lis
           else if decide (Comparable o.fl p o.conv lv) then true else same
       impl ++ spec ++ [boolTok demanded] ++ (if demanded && !same then [.err "c99"] else [])
 
+/-! input -/
+
+/-- assigned values fill the targets in order; kinds must agree -/
+def scanOuts : List Scanf.Out → List Target → Option (List Tok)
+  | [], tgs => some (tgs.flatMap targetToks)
+  | _ :: _, [] => none
+  | o :: os, t :: ts =>
+    let here : Option (List Tok) := match o, t with
+      | .int v, .cell _ => some [.num v]
+      | .str s, .buf => some [strT s]
+      | .z v, .mpz => some [.num v]
+      | .q n d, .mpq => some [.num n, .num d]
+      | _, _ => none
+    match here, scanOuts os ts with
+    | some a, some b => some (a ++ b)
+    | _, _ => none
+
+def scan (file : Bool) (fmt types inp : List UInt8) : List Tok :=
+  match buildArgs (toChars types) [] with
+  | none => unsupported
+  | some (_, tgs) =>
+    match Scanf.doscan (toChars fmt) (toChars inp) with
+    | none => unsupported
+    | some r =>
+      match scanOuts r.outs tgs with
+      | none => unsupported
+      | some ts => [.num r.fields] ++ ts ++ (if file then [natTok (inp.length - r.rest.length)] else [])
+
+/-- Does the property demand that scanning the printed text with `sfmt` gives the value back?
+    Yes for the matching conversion (d/i/u→d, o→o, x/X→x) and for %Zi on text that carries its base,
+    when there is at least one digit to read.  Not demanded: `#` with x/X read by %Zx (the scanner takes no 0x
+    prefix in a fixed base — reported as finding S1), precision 0 on the value 0 (no characters printed). -/
+def roundTripDemanded (pfmt sfmt : List Char) (zero : Bool) : Bool :=
+  match parseOne pfmt with
+  | none => false
+  | some o =>
+    let hash := o.fl.contains '#'
+    let zeroFlag := o.fl.contains '0'
+    let precZero := o.pNum == some 0
+    let noDigits := precZero && zero
+    let base := o.conv.base
+    if o.pStar || o.wStar || noDigits then false else
+    match sfmt with
+    | ['%', _, c] =>
+      if c = 'i' then zero || (base == 10 && !zeroFlag && o.pNum.isNone) || (hash && base != 10)
+      else
+        let sb := if c = 'd' || c = 'u' then 10 else if c = 'o' then 8 else if c = 'x' || c = 'X' then 16 else 0
+        sb == base && !(hash && base == 16 && !zero)
+    | _ => false
+
+def printScan (q : Bool) (pfmtB sfmtB : List UInt8) (vals : List Int) : List Tok :=
+  let pfmt := toChars pfmtB
+  let sfmt := toChars sfmtB
+  let arg : Option (Arg × Bool) := match q, vals with
+    | false, [v] => some (.mpz v, v == 0)
+    | true, [n, d] => some (.mpq n d, false)
+    | _, _ => none
+  match arg with
+  | none => unsupported
+  | some (a, zero) =>
+  match doprnt pfmt [a] with
+  | none => unsupported
+  | some r =>
+    let text := callsBytes r.calls
+    match Scanf.doscan sfmt text with
+    | none => unsupported
+    | some sr =>
+      let (valToks, same) : List Tok × Bool := match q, sr.outs, vals with
+        | false, [.z y], [v] => ([.num y], y == v)
+        | false, [], [v] => ([.num sentinel], sentinel == v)
+        | true, [.q yn yd], [n, d] => ([.num yn, .num yd], yn == n && yd == d)
+        | true, [], [n, d] => ([.num sentinel, .num 1], sentinel == n && d == 1)
+        | _, _, _ => ([.err "unsupported"], false)
+      let demanded := roundTripDemanded pfmt sfmt zero && (!q || !(pfmt.contains '.'))
+      [strT text, .num sr.fields] ++ valToks ++ [boolTok (demanded || same)] ++
+        (if demanded && !same then [.err "roundtrip"] else [])
+
 def handle : Handler
   | "gmp_snprintf_Z", .num sz :: .str f :: r => some (oneConv 'Z' sz.toNat f r)
   | "gmp_snprintf_Q", .num sz :: .str f :: r => some (oneConv 'Q' sz.toNat f r)
@@ -186,6 +264,12 @@ def handle : Handler
   | "gmp_vasprintf", .str f :: .str t :: r => some (fam .as 0 f t r)
   | "gmp_obstack_printf", .str f :: .str t :: r => some (fam .ob 0 f t r)
   | "gmp_obstack_vprintf", .str f :: .str t :: r => some (fam .ob 0 f t r)
+  | "gmp_print_scan_Z", [.str pf, .str sf, .num v] => some (printScan false pf sf [v])
+  | "gmp_print_scan_Q", [.str pf, .str sf, .num n, .num d] => some (printScan true pf sf [n, d])
+  | "gmp_sscanf", [.str f, .str t, .str i] => some (scan false f t i)
+  | "gmp_vsscanf", [.str f, .str t, .str i] => some (scan false f t i)
+  | "gmp_fscanf", [.str f, .str t, .str i] => some (scan true f t i)
+  | "gmp_vfscanf", [.str f, .str t, .str i] => some (scan true f t i)
   | _, _ => none
 
 end Mpir.Ops.Printf
